@@ -17,11 +17,13 @@ VARIABLES i, dev
 vars == <<i, dev>>
 F(idx, name, detail) == [rec |-> idx, pred |-> name, detail |-> ToString(detail)]
 \* all durations are logged in ns but only compared through these flags computed by the runner (TLC integers are 32 bit)
+SiaOps == {"sia.setifabsent", "sia.set", "sia.setgate", "sia.invgate", "sia.cmpgate"}
 Check(r, idx) ==
     (IF r.hang = 1 THEN <<F(idx, "C13.hang", r.sc)>> ELSE <<>>)
     \o (IF r.hang = 0 /\ r.massn = 0 /\ r.mustsweep = 1 /\ r.est # r.sc.warmlive THEN <<F(idx, "C13.still_counted", <<r.est, r.sc>>)>> ELSE <<>>)
     \* (a removal that was reported, but as Overflow, is C06's: the cause does not match)
-    \o (IF r.hang = 0 /\ r.massn = 0 /\ r.mustsweep = 1 /\ r.expired # 1 /\ ~(r.overflow = 1 /\ r.expired = 0) THEN <<F(idx, "C13.expiration_not_reported", <<r.expired, r.other, r.sc>>)>> ELSE <<>>)
+    \* (write-over-expired races, ops sia-x: two values of the key expire - the one the write found expired and the one it stored)
+    \o (IF r.hang = 0 /\ r.massn = 0 /\ r.mustsweep = 1 /\ r.expired \notin (IF r.sc.op \in SiaOps THEN {1, 2} ELSE {1}) /\ ~(r.overflow = 1 /\ r.expired = 0) THEN <<F(idx, "C13.expiration_not_reported", <<r.expired, r.other, r.sc>>)>> ELSE <<>>)
     \* the policies evict a stale node of the key (no longer current, nothing removed from the table) while a load is in flight (op ld-x):
     \* the load is not disturbed - a second Get joins it instead of invoking its loader
     \o (IF r.hang = 0 /\ r.overlap = 1 THEN <<F(idx, "C08.overlap_after_stale_eviction", <<r.ldruns, r.sc>>)>> ELSE <<>>)
